@@ -497,6 +497,10 @@ func envName(prefix string, path []any) string {
 
 // envValue renders a scalar the way the environment loader reads it back (a YAML scalar).
 func envValue(v any) string {
+	if _, empty := v.(emptyValue); empty {
+		return ""
+	}
+
 	raw, err := yaml.Marshal(v)
 	if err != nil {
 		panic(err)
@@ -825,11 +829,22 @@ func alternative(l leaf) (any, bool) {
 		switch last {
 		case "subject", "password", "realm", "user", "value", "client_secret", "name":
 			return v + "_env", true
+		case "host":
+			// the address a service listens on: empty (all interfaces) is a value as well; in the environment that is a
+			// variable which is set and empty
+			if len(l.Path) == 3 && l.Path[0] == "serve" {
+				return emptyValue{}, true
+			}
 		}
 	}
 
 	return nil, false
 }
+
+// emptyValue is the empty string, given in the environment as a variable without any value (in a file as "").
+type emptyValue struct{}
+
+func (emptyValue) MarshalYAML() (any, error) { return "", nil }
 
 // keepFileSelfContained moves leaves back into the file which the schema validation of the file requires to be
 // there (the environment is not validated against the schema): inside mechanisms, the default rule and the
